@@ -126,9 +126,21 @@ struct Agg {
 
 /// corpus of hand-written / minimised scenarios (sorted by file name): every 5th case of a batch
 /// is a seeded variant of one of them
+/// number of hand-written motif scenarios at the front of the corpus; the rest are witnesses
+static CORPUS_MOTIFS: std::sync::atomic::AtomicUsize = std::sync::atomic::AtomicUsize::new(0);
+
+/// corpus/*.json: hand-written motifs; corpus/witnesses/*.json: minimised witnesses of seeded changes
+/// (tools/regress_seeded.sh with REGRESS_KEEP). Every 5th case of a batch is a seeded variant of a
+/// corpus scenario, alternating between the two groups.
 pub fn load_corpus() -> Vec<Scenario> {
-    let dir = verif_dir().join("corpus");
-    let mut files: Vec<std::path::PathBuf> = match std::fs::read_dir(&dir) {
+    let mut out = load_corpus_dir(&verif_dir().join("corpus"));
+    CORPUS_MOTIFS.store(out.len(), std::sync::atomic::Ordering::Relaxed);
+    out.extend(load_corpus_dir(&verif_dir().join("corpus").join("witnesses")));
+    out
+}
+
+fn load_corpus_dir(dir: &std::path::Path) -> Vec<Scenario> {
+    let mut files: Vec<std::path::PathBuf> = match std::fs::read_dir(dir) {
         Ok(rd) => rd.filter_map(|e| e.ok().map(|e| e.path())).filter(|p| p.extension().map(|x| x == "json").unwrap_or(false)).collect(),
         Err(_) => Vec::new(),
     };
@@ -154,8 +166,11 @@ pub fn load_corpus() -> Vec<Scenario> {
 pub fn scenario_for(corpus: &[Scenario], gp: &gen::GenParams, base_seed: u64, i: u64) -> Scenario {
     let seed = seed_for(base_seed, i);
     if !corpus.is_empty() && i % 5 == 4 {
-        let k = ((i / 5) as usize) % corpus.len();
-        gen::corpus_variant(&corpus[k], seed, gp)
+        let na = CORPUS_MOTIFS.load(std::sync::atomic::Ordering::Relaxed).min(corpus.len());
+        let nb = corpus.len() - na;
+        let k = (i / 5) as usize;
+        let idx = if nb == 0 || (na > 0 && k % 2 == 0) { (k / if nb == 0 { 1 } else { 2 }) % na.max(1) } else { na + (k / 2) % nb };
+        gen::corpus_variant(&corpus[idx.min(corpus.len() - 1)], seed, gp)
     } else {
         gen::generate(seed, gp)
     }
@@ -229,6 +244,10 @@ fn run_generation(
     regenerable: bool,
     source: &(dyn Fn(u64) -> Scenario + Sync),
 ) -> Agg {
+    // debugging aid: VERIF_REPORT_PROP=Cyy collects the violations of property Cyy seen under THIS profile
+    let report_prop_s: String = std::env::var("VERIF_REPORT_PROP").unwrap_or_else(|_| opts.prop.clone());
+    let report_prop: &str = report_prop_s.as_str();
+
     let next = AtomicU64::new(from);
     let mut aggs: Vec<Agg> = Vec::new();
     std::thread::scope(|s| {
@@ -270,7 +289,7 @@ fn run_generation(
                             }
                             let mut hit = false;
                             for (r, vi) in rep.violations.iter() {
-                                if vi.prop == opts.prop {
+                                if vi.prop == report_prop {
                                     a.hits.push((i, *r, vi.clone()));
                                     hit = true;
                                 } else if known.findings.iter().any(|k| matches_known(k, vi.prop, vi, &sc, *r)) {
